@@ -124,6 +124,51 @@ def check_daughter_order(ctx: Check, tree: Tree) -> None:
                 "get_sorted_states orders the daughters by particle name only (never by helicity)", problems or None)
 
 
+def check_partner_key_flags(ctx: Check, tree: Tree) -> None:
+    """R-PARTNER (flags): which chains share a coefficient AND whether a chain is the flipped partner
+    are both decided by comparing strings: the chain's own suffix (generate_two_body_decay_suffix) with
+    the partner suffix that __generate_amplitude_coefficient_couple builds.  The partner suffix always
+    carries the daughter helicities and a plain arrow.  An own suffix whose daughter helicities or whose
+    arrow depend on a *display* flag changes the physics with the flag:
+      - daughters without helicities: reversed chains collapse onto one name and are never recognised as
+        partners - one coefficient, no parity sign;
+      - canonical names with a plain arrow: the partner IS recognised and the prefactor is applied on top
+        of the Clebsch-Gordan coefficients that already carry the parity relation.
+    (insert_parent_helicities only splits coefficients - chains that do not share a coefficient are
+    outside the premise of the property - and is exempt.)"""
+    mod = "ampform.helicity.naming"
+    couple = tree.func(f"{mod}::HelicityAmplitudeNameGenerator.__generate_amplitude_coefficient_couple")
+    own_calls = [c for c in walk_function(couple.node) if isinstance(c, ast.Call) and unparse(c.func).endswith("generate_two_body_decay_suffix")]
+    if not own_calls:
+        raise AnalysisError(f"{couple.qual}: the own suffix is no longer generate_two_body_decay_suffix(...) - rule shape unknown")
+    # every implementation (overrides included) on the own-suffix path
+    names = {"generate_two_body_decay_suffix", "_get_coefficient_components"}
+    path = sorted((q for q, f in tree.funcs.items() if q.startswith(mod + "::") and f.name in names and f.cls is not None), key=str)
+    if len(path) < 3:
+        raise AnalysisError(f"only {len(path)} implementations on the own-suffix path (3 confirmed: generate_two_body_decay_suffix and two _get_coefficient_components)")
+    exempt = {"insert_parent_helicities": "only adds the parent's helicity to the own name: chains stop sharing a coefficient, none shares one without the sign"}
+    found: dict[str, list] = {}
+    for q in path:
+        fn = tree.funcs[q]
+        for n in walk_function(fn.node):
+            if isinstance(n, ast.Attribute) and isinstance(n.value, ast.Name) and n.value.id == "self":
+                flag = n.attr.split("__")[-1]
+                if flag.startswith("insert_"):
+                    found.setdefault(flag, []).append((fn, n))
+    ctx.stats["display_flags_on_partner_key_path"] = len(found)
+    if not found:
+        ctx.ok("R-PARTNER", tree.loc(couple.node), "the suffix that decides coefficient sharing and the parity flip does not depend on a display flag")
+    for flag, sites in sorted(found.items()):
+        fn, node = sites[0]
+        key = f"{couple.qual}::partner-key-depends-on-display-flag::{flag}"
+        if flag in exempt:
+            ctx.ok("R-PARTNER", tree.loc(node), f"display flag `{flag}` enters the own suffix: {exempt[flag]}")
+            continue
+        ctx.violation("R-PARTNER", key, tree.loc(node),
+                      f"the own suffix compared with the partner suffix depends on the display flag `{flag}` ({fn.qual.split('::')[-1]}): with the non-default value, chains that differ by reversing the daughter helicities share a coefficient without / with a doubled parity sign",
+                      {"read at": [tree.loc(n_) for _, n_ in sites][:3], "partner suffix": "always `parent -> child_{-l1} child_{-l2}` (helicities, plain arrow)"})
+
+
 def run(ctx: Check, tree: Tree) -> None:
     ctx.decided += [
         "R-DEPENDS: every non-trivial value returned by the parity-prefactor function depends on the node loop variable, and every contribution inside the node loop is guarded by the per-node test `mapped suffix != raw suffix` and takes the parity factor of that node",
@@ -148,6 +193,7 @@ def run(ctx: Check, tree: Tree) -> None:
         if not n_ret:
             raise AnalysisError(f"{fn.qual}: no loop over the nodes and no non-None return")
         ctx.section(check_partner_suffix, ctx, tree)
+        ctx.section(check_partner_key_flags, ctx, tree)
         return
     if len(loops) != 1:
         raise AnalysisError(f"{fn.qual}: expected one loop over transition.topology.nodes, found {len(loops)}")
@@ -278,6 +324,7 @@ def run(ctx: Check, tree: Tree) -> None:
     ctx.verdict(ok, "R-DEPENDS", f"{fn.qual}::raw-suffix-of-node", tree.loc(loop), f"the raw suffix is generate_two_body_decay_suffix(transition, {loop_var}) of the loop's node")
 
     ctx.section(check_partner_suffix, ctx, tree)
+    ctx.section(check_partner_key_flags, ctx, tree)
     ctx.section(check_daughter_order, ctx, tree)
     # the per-chain components A_{...} are an observation point of the property: they must be the complete
     # chain amplitude including the parity sign (rule shared with C02)
